@@ -293,8 +293,7 @@ class BoundedGaussian(Gaussian):
         out = True
         while np.any(out):
             out = np.logical_or(val < self.lower_bound, val > self.upper_bound)
-            out = np.where(out)
-            val[out] = super().sample(len(out[0]))
+            val[out] = super().sample(np.count_nonzero(out))
         return val if size is not None else val[0]
 
 
